@@ -520,6 +520,11 @@ func (g *gctx) pts(max int, label string) []geom.Point {
 	for i := range out {
 		out[i] = g.pt()
 	}
+	if n >= 2 && g.r.t.OneIn(3, "closed-ring") {
+		// closed ring / repeated vertex: last == first
+		out[n-1] = out[0]
+		g.verts[len(g.verts)-1] = out[0]
+	}
 	return out
 }
 
